@@ -46,6 +46,7 @@ pub fn run(name: &str, seed: u64, rest: &[String]) -> String {
         "build_lookup" => build_lookup(seed),
         "wmo_roundtrip" => wmo_roundtrip(seed),
         "adpcm" => adpcm_oracle(seed),
+        "dbc_paths" => dbc_paths(seed),
         "wmo_known" => wmo_known(rest.first().map(|s| s.as_str()).unwrap_or("")),
         _ => { let _ = rest; format!("{{\"oracle\":{},\"error\":\"unknown oracle\"}}", js(name)) }
     }
@@ -358,6 +359,57 @@ fn mod_model(seed: u64) -> String {
             }
         }
     }
+    // several sessions on one archive, a rename onto a name added in the same session, compact followed by another change
+    {
+        let dir = tempfile::tempdir().unwrap();
+        let path = dir.path().join("sess.mpq");
+        let b = ArchiveBuilder::new().listfile_option(ListfileOption::Generate).add_file_data(vec![1u8; 700], "one.txt").add_file_data(vec![2u8; 300], "two.txt");
+        if b.build(&path).is_ok() {
+            let p2 = path.clone();
+            let r = with_timeout(60, move || -> Result<BTreeMap<String, Vec<u8>>, String> {
+                let mut model: BTreeMap<String, Vec<u8>> = BTreeMap::new();
+                model.insert("one.txt".into(), vec![1u8; 700]); model.insert("two.txt".into(), vec![2u8; 300]);
+                {   // session 1
+                    let mut m = MutableArchive::open(&p2).map_err(|e| format!("open 1: {}", e))?;
+                    m.add_file_data(&vec![3u8; 900], "three.txt", AddFileOptions::new()).map_err(|e| format!("add three: {}", e))?; model.insert("three.txt".into(), vec![3u8; 900]);
+                    m.add_file_data(&vec![4u8; 50], "four.txt", AddFileOptions::new()).map_err(|e| format!("add four: {}", e))?; model.insert("four.txt".into(), vec![4u8; 50]);
+                    if m.rename_file("one.txt", "four.txt").is_ok() { return Err("rename_file(one.txt, four.txt) succeeded although four.txt was added in this session".into()); }
+                    m.remove_file("two.txt").map_err(|e| format!("remove two: {}", e))?; model.remove("two.txt");
+                    if m.rename_file("three.txt", "two.txt").is_err() { return Err("rename_file(three.txt, two.txt) failed although two.txt was removed in this session".into()); }
+                    let d = model.remove("three.txt").unwrap(); model.insert("two.txt".into(), d);
+                    m.flush().map_err(|e| format!("flush 1: {}", e))?;
+                }
+                {   // session 2: the first addition must not land on data written by session 1
+                    let mut m = MutableArchive::open(&p2).map_err(|e| format!("open 2: {}", e))?;
+                    m.add_file_data(&vec![5u8; 1200], "five.txt", AddFileOptions::new()).map_err(|e| format!("add five: {}", e))?; model.insert("five.txt".into(), vec![5u8; 1200]);
+                    m.flush().map_err(|e| format!("flush 2: {}", e))?;
+                }
+                {   // session 3: compact, then one more change on the same handle
+                    let mut m = MutableArchive::open(&p2).map_err(|e| format!("open 3: {}", e))?;
+                    m.remove_file("four.txt").map_err(|e| format!("remove four: {}", e))?; model.remove("four.txt");
+                    m.flush().map_err(|e| format!("flush 3a: {}", e))?;
+                }
+                {
+                    let mut m = MutableArchive::open(&p2).map_err(|e| format!("open 4: {}", e))?;
+                    m.compact().map_err(|e| format!("compact: {}", e))?;
+                    m.add_file_data(&vec![6u8; 77], "six.txt", AddFileOptions::new()).map_err(|e| format!("add six after compact: {}", e))?; model.insert("six.txt".into(), vec![6u8; 77]);
+                    m.flush().map_err(|e| format!("flush 4: {}", e))?;
+                }
+                Ok(model)
+            });
+            tried += 1;
+            let desc = "sessions: [add three, add four, rename one->four (must fail), remove two, rename three->two, flush] [add five, flush] [remove four, flush] [compact, add six, flush]";
+            match r {
+                None => return fail("mod_model", desc.into(), "an operation did not terminate within 60 s".into(), "every operation terminates".into()),
+                Some(Err(e)) => return fail("mod_model", desc.into(), e, "agreement with a plain map".into()),
+                Some(Ok(model)) => {
+                    let mut a = match Archive::open(&path) { Ok(a) => a, Err(e) => return fail("mod_model", desc.into(), format!("reopen failed: {}", e), "archive reopens".into()) };
+                    for (n, d) in &model { let got = a.read_file(n).ok(); if got.as_ref() != Some(d) { return fail("mod_model", desc.into(), format!("after reopen read_file({}) = {:?} bytes starting {:?}", n, got.as_ref().map(|g| g.len()), got.as_ref().and_then(|g| g.first().copied())), format!("{} bytes of {}", d.len(), d[0])); } }
+                    for n in ["three.txt", "four.txt"] { if a.read_file(n).is_ok() { return fail("mod_model", desc.into(), format!("read_file({}) is Ok after it was renamed/removed", n), "not found".into()); } }
+                }
+            }
+        }
+    }
     // hash table without a never-used slot: fill the table through the editor, tombstone two entries, then look up / remove /
     // rename an absent name, refill, and add once more (must be refused); everything must return and agree with the map
     {
@@ -516,6 +568,27 @@ fn build_lookup(seed: u64) -> String {
                     }
                     Err(e) => return fail("build_lookup", format!("files {:?} with a generated listfile", names), format!("read_file((listfile)) Err({})", e), "Ok".into()),
                 }
+            }
+        }
+    }
+    // a non-ASCII name is stored, listed and found under exactly the bytes it was added with; a multi-sector compressed file whose
+    // last partial sector does not compress reads back bit-identically
+    {
+        let dir = tempfile::tempdir().unwrap();
+        let path = dir.path().join("u.mpq");
+        let name = "Donn\u{e9}es\\r\u{e9}sum\u{e9}.txt";
+        let mut big = vec![b'A'; 2 * 4096];
+        let mut r2 = Rng(0x7A11); big.extend((0..1000).map(|_| r2.next() as u8));
+        let r = ArchiveBuilder::new().block_size(3).listfile_option(ListfileOption::Generate).add_file_data(vec![8u8; 21], name)
+            .add_file_data_with_options(big.clone(), "big\\tail.bin", 2, false, 0).build(&path);
+        tried += 1;
+        if r.is_ok() {
+            if let Ok(mut a) = Archive::open(&path) {
+                let g = a.read_file(name).ok();
+                if g != Some(vec![8u8; 21]) { return fail("build_lookup", format!("file added as {:?}", name), format!("read_file under the same name -> {:?}", g.map(|g| g.len())), "the 21 added bytes".into()); }
+                if let Ok(text) = a.read_file("(listfile)") { if !String::from_utf8_lossy(&text).split("\r\n").any(|l| l == name) { return fail("build_lookup", format!("file added as {:?} with a generated listfile", name), format!("listfile {:?}", String::from_utf8_lossy(&text)), "a line with exactly that name".into()); } }
+                let g2 = a.read_file("big\\tail.bin").ok();
+                if g2.as_ref() != Some(&big) { return fail("build_lookup", "9192-byte file (two sectors of 'A' + 1000 random bytes), zlib, 4 KiB sectors".into(), format!("read back {:?} bytes, equal: false", g2.map(|g| g.len())), "bit-identical content".into()); }
             }
         }
     }
@@ -741,7 +814,7 @@ fn dbc_writer(seed: u64) -> String {
     use wow_cdbc::{DbcParser, DbcWriter, FieldType, Schema, SchemaField, Value};
     let mut rng = Rng(seed ^ 0x3717);
     let mut tried = 0;
-    let pool = ["", "wolf", "bear", "boar", "w", "wolfhound"];
+    let pool = ["", "wolf", "Z\u{fc}rich", "boar", "w", "wolfhound", "\u{65e5}\u{672c}\u{8a9e}"];
     for _ in 0..200 {
         let n = 1 + (rng.next() % 5) as usize;
         let picks: Vec<usize> = (0..n).map(|_| (rng.next() % pool.len() as u64) as usize).collect();
@@ -1242,11 +1315,28 @@ fn adt_offsets(seed: u64) -> String {
         let mut models: Vec<String> = (0..nm).map(|i| format!("world/m{}{}.m2", "x".repeat((rng.next() % 5) as usize), i)).collect();
         if nm >= 2 { models[0] = "world/m\u{f6}del_\u{e9}.m2".to_string(); }
         let wmos: Vec<String> = (0..nw).map(|i| format!("world/w{}{}.wmo", "y".repeat((rng.next() % 7) as usize), i)).collect();
-        let mut b = AdtBuilder::new().with_version(if round % 2 == 0 { AdtVersion::VanillaEarly } else { AdtVersion::WotLK }).add_texture("tileset/grass.blp");
+        let ver = [AdtVersion::VanillaEarly, AdtVersion::WotLK, AdtVersion::TBC, AdtVersion::Cataclysm, AdtVersion::MoP][round % 5];
+        let mut b = AdtBuilder::new().with_version(ver).add_texture("tileset/grass.blp");
+        // optional top-level chunks in every combination the version allows (their MHDR entries must point at them)
+        let (with_mfbo, with_mh2o) = (ver >= AdtVersion::TBC && (round / 5) % 2 == 0, ver >= AdtVersion::WotLK && round % 3 != 1);
+        if with_mfbo { b = b.add_flight_bounds(wow_adt::chunks::MfboChunk { max_plane: [500; 9], min_plane: [-100; 9] }); }
+        if with_mh2o {
+            use wow_adt::chunks::mh2o::{Mh2oAttributes, Mh2oChunk, Mh2oEntry, Mh2oHeader, Mh2oInstance};
+            let mut entries = vec![Mh2oEntry::default(); 256];
+            entries[17] = Mh2oEntry { header: Mh2oHeader { offset_instances: 0, layer_count: 1, offset_attributes: 0 },
+                instances: vec![Mh2oInstance { liquid_type: 5, liquid_object_or_lvf: 0, min_height_level: 10.0, max_height_level: 10.0, x_offset: 0, y_offset: 0, width: 8, height: 8, offset_exists_bitmap: 0, offset_vertex_data: 0 }],
+                vertex_data: vec![None], exists_bitmaps: vec![None], attributes: Some(Mh2oAttributes { fishable: u64::MAX, deep: 0 }) };
+            b = b.add_water_data(Mh2oChunk { entries });
+        }
         for m in &models { b = b.add_model(m.clone()); }
         for w in &wmos { b = b.add_wmo(w.clone()); }
-        for i in 0..nc { b = b.add_mcnk_chunk(minimal_mcnk(i as u32, 0)); }
-        let desc = format!("ADT with models {:?}, wmos {:?}, {} MCNK", models, wmos, nc);
+        for i in 0..nc {
+            let mut ch = minimal_mcnk(i as u32, 0);
+            // tinted vertex colours (r != b) on the first chunk of the versions that carry MCCV
+            if i == 0 && ver >= AdtVersion::WotLK { ch.vertex_colors = Some(wow_adt::chunks::mcnk::MccvChunk { colors: (0..145).map(|k| wow_adt::chunks::mcnk::VertexColor { b: 200, g: 90, r: 10 + (k % 7) as u8, a: 255 }).collect() }); }
+            b = b.add_mcnk_chunk(ch);
+        }
+        let desc = format!("ADT {:?} with models {:?}, wmos {:?}, {} MCNK, flight bounds {}, water {}", ver, models, wmos, nc, with_mfbo, with_mh2o);
         let bytes = match b.build().and_then(|a| a.to_bytes()) { Ok(x) => x, Err(_) => continue };
         tried += 1;
         // independent chunk walk
@@ -1282,6 +1372,15 @@ fn adt_offsets(seed: u64) -> String {
                     if o + want.len() + 1 > sc.2 || &bytes[s0..s0 + want.len()] != want || bytes[s0 + want.len()] != 0 { return fail("adt_offsets", desc, format!("{} entry {} = {} does not point at {:?} in {}", idxm, i, o, names[i], strm), "offset of the i-th NUL-terminated name".into()); }
                 }
             }
+        }
+        if ver >= AdtVersion::WotLK {
+            // the first MCCV payload in the file belongs to chunk 0: 145 colours stored B,G,R,A
+            if let Some(p0) = bytes.windows(4).position(|w| w == b"VCCM") {
+                let sz = rd(p0 + 4);
+                if sz != 580 || p0 + 8 + 8 > bytes.len() || bytes[p0 + 8..p0 + 12] != [200, 90, 10, 255] || bytes[p0 + 12..p0 + 16] != [200, 90, 11, 255] {
+                    return fail("adt_offsets", desc, format!("MCCV of chunk 0: size {}, first colours {:?}", sz, &bytes[p0 + 8..(p0 + 16).min(bytes.len())]), "size 580, colours stored B,G,R,A = [200, 90, 10, 255], [200, 90, 11, 255]".into());
+                }
+            } else { return fail("adt_offsets", desc, "no MCCV sub-chunk in the file".into(), "chunk 0 carries vertex colours".into()); }
         }
         if let Some(mc) = find("MCIN") {
             if mc.2 != 256 * 16 { return fail("adt_offsets", desc, format!("MCIN size {}", mc.2), "4096 (256 entries)".into()); }
@@ -1546,4 +1645,48 @@ fn adpcm_oracle(seed: u64) -> String {
         }
     }
     none("adpcm", tried)
+}
+
+
+/// wow-cdbc: every access path agrees with a hand decoding of a mixed-width table with a narrow array field
+/// (eager parser, lazy random access, lazy iterator), for every record index
+fn dbc_paths(seed: u64) -> String {
+    use std::sync::Arc;
+    use wow_cdbc::{DbcParser, FieldType, LazyDbcParser, Schema, SchemaField, Value};
+    let mut rng = Rng(seed ^ 0xD8C);
+    let mut tried = 0;
+    for round in 0..12u32 {
+        let n = 1 + (rng.next() % 7) as u32;
+        let mk = || { let mut sc = Schema::new("Mixed"); sc.add_field(SchemaField::new("ID", FieldType::UInt32)); sc.add_field(SchemaField::new("Level", FieldType::UInt16));
+            sc.add_field(SchemaField::new("Flags", FieldType::UInt8)); sc.add_field(SchemaField::new("Delta", FieldType::Int8));
+            sc.add_field(SchemaField::new_array("Arr", FieldType::UInt16, 2)); sc };
+        // record: u32, u16, u8, i8, u16[2]  = 12 bytes, 6 schema values (array expanded)
+        let mut data = b"WDBC".to_vec();
+        data.extend_from_slice(&n.to_le_bytes()); data.extend_from_slice(&6u32.to_le_bytes()); data.extend_from_slice(&12u32.to_le_bytes()); data.extend_from_slice(&1u32.to_le_bytes());
+        let mut want: Vec<(u32, u16, u8, i8, [u16; 2])> = Vec::new();
+        for i in 0..n { let r = (100 + i + round, rng.next() as u16, rng.next() as u8, rng.next() as i8, [rng.next() as u16, rng.next() as u16]);
+            data.extend_from_slice(&r.0.to_le_bytes()); data.extend_from_slice(&r.1.to_le_bytes()); data.push(r.2); data.push(r.3 as u8);
+            data.extend_from_slice(&r.4[0].to_le_bytes()); data.extend_from_slice(&r.4[1].to_le_bytes()); want.push(r); }
+        data.push(0);
+        let parser = match DbcParser::parse_bytes(&data).and_then(|p| p.with_schema(mk())) { Ok(p) => p, Err(_) => continue };
+        let eager = match parser.parse_records() { Ok(r) => r, Err(e) => return fail("dbc_paths", format!("{} records of (u32,u16,u8,i8,u16[2])", n), format!("parse_records Err({})", e), "Ok".into()) };
+        tried += 1;
+        let show = |w: &(u32, u16, u8, i8, [u16; 2])| format!("[UInt32({}), UInt16({}), UInt8({}), Int8({}), Array([UInt16({}), UInt16({})])]", w.0, w.1, w.2, w.3, w.4[0], w.4[1]);
+        for (i, w) in want.iter().enumerate() {
+            let got = eager.get_record(i).map(|r| format!("{:?}", r.values()));
+            if got.as_deref() != Some(&show(w)[..]) { return fail("dbc_paths", format!("{} records of (u32,u16,u8,i8,u16[2]); eager record {}", n, i), format!("{:?}", got), show(w)); }
+        }
+        let schema = mk();
+        let sb = Arc::new(eager.string_block().clone());
+        let lazy = LazyDbcParser::new(parser.data(), parser.header(), Some(&schema), sb);
+        for (i, w) in want.iter().enumerate() {
+            let got = lazy.get_record(i as u32).ok().map(|r| format!("{:?}", r.values()));
+            if got.as_deref() != Some(&show(w)[..]) { return fail("dbc_paths", format!("{} records of (u32,u16,u8,i8,u16[2]); LazyDbcParser::get_record({})", n, i), format!("{:?}", got), show(w)); }
+        }
+        for (i, rec) in lazy.record_iterator().enumerate() {
+            let got = rec.ok().map(|r| format!("{:?}", r.values()));
+            if i < want.len() && got.as_deref() != Some(&show(&want[i])[..]) { return fail("dbc_paths", format!("{} records; lazy iterator record {}", n, i), format!("{:?}", got), show(&want[i])); }
+        }
+    }
+    none("dbc_paths", tried)
 }
